@@ -14,12 +14,15 @@ Go ↔ Lean:
   ctx.go `Redirect()`, redirect.go `With`/`WithInput`/`Status`/`To`/`processFlashMessages` ↔ `Act.wi/inp/rs/to`
   ctx.go `ViewBind`/`Render`, `Locals`, `Bind()`, bind.go `WithAutoHandling`/`Query`, `BaseURL`, `Set` ↔ the other `Act`s
   app.go `DefaultErrorHandler`                         ↔ `finish`
+  app.go `serverErrorHandler` (requests fasthttp rejects) ↔ `serveBad`
 
-The application is the harness' fixed one (harness/cmd/c05): middleware `Use` (sets X-Mw, calls Next);
+The application is the harness' fixed one (harness/cmd/c05): an `ErrorHandler` that plants state
+(`plantActs`) before answering like the default one; middleware `Use` (sets X-Mw, calls Next);
 GET|POST /p/:a/:b, /q/:x?, /s/*, /plain; POST /only-post; GET /t; every route runs the script attached to
 the request. Route matching itself (C01–C03's subject) is modelled only for the request paths of the
 harness vocabulary (`classify`); fasthttp (request parsing, per-request reset of user values and of the
 response) is outside the model: locals and the response start empty for every request.
+Concurrent schedules of the same steps: `Sched.lean`.
 -/
 namespace C05
 open B
@@ -271,7 +274,7 @@ def classify (path : Bytes) : Option PathKind :=
   | f :: rest =>
     if f = b "p" then (match rest with | [x, y] => if x ≠ [] ∧ y ≠ [] then some (.p x y) else none | _ => none)
     else if f = b "q" then (match rest with | [] => some (.q []) | [x] => if x ≠ [] then some (.q x) else none | _ => none)
-    else if f = b "s" then (match rest with | [] => none | r => if r.all (· ≠ []) then some (.s (join r (b "/"))) else none)
+    else if f = b "s" then (match rest with | [] => some (.s []) | r => if r.all (· ≠ []) then some (.s (join r (b "/"))) else none)
     else if f = b "plain" then (if rest = [] then some .plain else none)
     else if f = b "only-post" then (if rest = [] then some .onlyPost else none)
     else if f = b "t" then (if rest = [] then some .t else none)
@@ -486,52 +489,135 @@ def flashStage (F : RFacts) (cookie : Option Bytes) (pick : Nat) (s : Live) (fl 
     let (fl, ck) := flashStep F v fl
     ({ s with resp := { s.resp with setFlash := ck } }, fl)
 
-/-- everything between Reset and release: returns the handler state at the end, the response, and
-    the context's flash slice / values / routing scratch as the request leaves them -/
-def handle (F : RFacts) (c : Ctx) (reds : List Redirect) (rq : Req) (pick : Nat) : Live × Resp × Slice × List Bytes × Outcome :=
-  let out := outcome rq c.methodInt c.indexRoute c.matched
-  let s0 := Live.start c reds
-  match out with
-  | .notImplemented => (s0, { status := 501, body := b "Not Implemented" }, c.flash, c.values, out)
-  | _ =>
-    let (s1, fl) := flashStage F rq.flash pick s0 c.flash
-    let s1 := { s1 with resp := { s1.resp with mw := true } }          -- the Use middleware, then Next
-    match out with
-    | .handler _ vs =>
-      let values := writeValues vs c.values
-      let s := runScript rq (readParams values vs.length) fl.vis pick s1 rq.script
-      (s, finish s, fl, values, out)
-    | .notAllowed allow => (s1, { errResp s1.resp 405 (b "Method Not Allowed") with allow := allow }, fl, c.values, out)
-    | .outside => (s1, { s1.resp with status := 500, body := b "outside-model" }, fl, c.values, out)
-    | _ => (s1, errResp s1.resp 404 (notFoundBody rq), fl, c.values, out)
+/-! ### one request, step by step
 
-/-- router.go `defaultRequestHandler` for one well-formed request on pooled context `c0`:
-    AcquireCtx (Reset) … handler chain … deferred ReleaseCtx (release, Redirect back to its pool). -/
-def serveOn (F : RFacts) (c0 : Ctx) (reds : List Redirect) (rq : Req) (pick : Nat) : Ctx × List Redirect × Obs :=
+The service of one request is split into the steps its goroutine performs between two pool operations
+(`Flight.acquire`, `Flight.enter`, one `Flight.stepAct` per handler action, `Flight.retire`); `serveOn`
+runs them without interruption, `Sched.lean` lets arbitrary schedules interleave the steps of many
+requests. -/
+
+/-- a request being served: what its goroutine holds between acquire and release -/
+structure Flight where
+  orig : Req                -- the request as submitted
+  rq : Req                  -- the request as the handlers read it (through `c.fasthttp`)
+  c : Ctx                   -- the pooled context after Reset
+  out : Outcome
+  s : Live                  -- handler state (`s.reds`: redirectPool as this request saw it last)
+  fl : Slice                -- c.flashMessages
+  values : List Bytes       -- c.values
+  todo : List Act           -- what is left of the handler's script
+  entered : Bool            -- flash check / middleware / route match done
+  deriving Repr, Inhabited
+
+/-- `AcquireCtx` (Reset) on pooled context `c0` + the method check of the request handler -/
+def Flight.acquire (F : RFacts) (c0 : Ctx) (rq : Req) : Flight :=
   let c := if F.lc.acquireResets then reset F rq c0 else c0
   let rq' := c.fasthttp.getD rq          -- handlers read the request through c.fasthttp
-  let h := handle F c reds rq' pick
-  let s := h.1
-  let resp := h.2.1
-  let fl := h.2.2.1
-  let values := h.2.2.2.1
-  let out := h.2.2.2.2
-  let c := { c with bind := s.bind, redirect := s.redirect, viewBind := s.viewBind, baseURI := s.baseURI,
-                    flash := fl, values := values,
-                    route := (match out with | .handler id _ => some id | .notImplemented => c.route | _ => some 0),
-                    matched := (match out with | .handler .. => true | _ => c.matched),
-                    indexRoute := (match out with | .handler id _ => (id : Int) | .notImplemented => c.indexRoute | _ => 6) }
-  -- ReleaseCtx: release(); the attached Redirect goes back to redirectPool
+  { orig := rq, rq := rq', c := c, out := outcome rq' c.methodInt c.indexRoute c.matched,
+    s := Live.start c [], fl := c.flash, values := c.values, todo := [], entered := false }
+
+/-- flash check (`Redirect()` = redirectPool.Get, `parseAndClearFlashMessages`), then `next`: the `Use`
+    middleware and the route match (which writes `c.values`); `reds` is redirectPool as it is now.
+    An unknown method is answered with 501 before any of this. -/
+def Flight.enter (F : RFacts) (f : Flight) (reds : List Redirect) (pick : Nat) : Flight × List Redirect :=
+  if f.entered then (f, reds) else
+  match f.out with
+  | .notImplemented => ({ f with s := { f.s with reds := reds }, entered := true }, reds)
+  | out =>
+    let st := flashStage F f.rq.flash pick { f.s with reds := reds } f.fl
+    let s1 : Live := { st.1 with resp := { st.1.resp with mw := true } }          -- the Use middleware, then Next
+    ({ f with s := s1, fl := st.2, entered := true,
+              values := (match out with | .handler _ vs => writeValues vs f.values | _ => f.values),
+              todo := (match out with | .handler _ _ => f.rq.script | _ => []) }, s1.reds)
+
+/-- what `Params` returns to the handler -/
+def Flight.params (f : Flight) : List Bytes :=
+  match f.out with
+  | .handler _ vs => readParams f.values vs.length
+  | _ => []
+
+/-- the next action of the handler -/
+def Flight.stepAct (f : Flight) (reds : List Redirect) (pick : Nat) : Flight × List Redirect :=
+  match f.todo with
+  | [] => (f, reds)
+  | a :: rest =>
+    let s := act f.rq f.params f.fl.vis pick { f.s with reds := reds } a
+    ({ f with s := s, todo := rest }, s.reds)
+
+/-- the response: handler epilogue / error handler -/
+def Flight.resp (f : Flight) : Resp :=
+  match f.out with
+  | .notImplemented => { status := 501, body := b "Not Implemented" }
+  | .handler _ _ => finish f.s
+  | .notAllowed allow => { errResp f.s.resp 405 (b "Method Not Allowed") with allow := allow }
+  | .outside => { f.s.resp with status := 500, body := b "outside-model" }
+  | .notFound => errResp f.s.resp 404 (notFoundBody f.rq)
+
+/-- the context as the request leaves it (before `release`) -/
+def Flight.ctxAtEnd (f : Flight) : Ctx :=
+  { f.c with bind := f.s.bind, redirect := f.s.redirect, viewBind := f.s.viewBind, baseURI := f.s.baseURI,
+             flash := f.fl, values := f.values,
+             route := (match f.out with | .handler id _ => some id | .notImplemented => f.c.route | _ => some 0),
+             matched := (match f.out with | .handler .. => true | _ => f.c.matched),
+             indexRoute := (match f.out with | .handler id _ => (id : Int) | .notImplemented => f.c.indexRoute | _ => 6) }
+
+/-- the application's `ErrorHandler` (harness/cmd/c05 `errorHandler`): an error page that touches every
+    channel — `ViewBind`, `Redirect().With(..).Status(307)`, `Bind().WithAutoHandling()`, `BaseURL()` —
+    and then answers like `DefaultErrorHandler`. It runs for 404, 405, errors returned by handlers and
+    (through app.go `serverErrorHandler`) for requests fasthttp rejects. -/
+def plantActs : List Act := [.vb (b "eh") (b "1"), .wi (b "eh") (b "1") 7, .rs 307, .ba, .bu]
+
+/-- does `app.ErrorHandler` run for this request? -/
+def Flight.failed (f : Flight) : Bool :=
+  match f.out with
+  | .notFound => true
+  | .notAllowed _ => true
+  | .handler _ _ => f.s.err.isSome
+  | _ => false
+
+/-- the handler state when the request handler returns: after the error handler, if it runs -/
+def Flight.atEnd (f : Flight) (reds : List Redirect) (pick : Nat) : Live :=
+  if f.failed then runScript f.rq f.params f.fl.vis pick { f.s with reds := reds } plantActs
+  else { f.s with reds := reds }
+
+/-- deferred `ReleaseCtx`: `release()` (the attached Redirect goes back to redirectPool through
+    `ReleaseRedirect`), `pool.Put`. Returns the context as it goes back to the pool, redirectPool
+    afterwards, and the request's observation. -/
+def Flight.retire (F : RFacts) (f : Flight) (reds : List Redirect) (pick : Nat) : Ctx × List Redirect × Obs :=
+  let s := f.atEnd reds pick
   let reds := match s.redirect with
     | some r => if F.lc.ctxReleaseReturnsRedirect && F.lRedirect then
                   (if F.lc.redirectReleaseBeforePut then r.released F else r) :: s.reds else s.reds
     | none => s.reds
-  let c := if F.lc.releaseBeforePut && F.lc.handlerDefersRelease then release F c else c
-  (c, reds, { resp := resp, seen := s.seen })
+  let c := if F.lc.releaseBeforePut && F.lc.handlerDefersRelease then release F { f with s := s }.ctxAtEnd
+           else { f with s := s }.ctxAtEnd
+  (c, reds, { resp := f.resp, seen := f.s.seen })
 
-/-- one request against the world: malformed requests never reach fiber -/
+/-- run what is left of one request without interruption -/
+def Flight.complete (F : RFacts) (g : Flight) (reds : List Redirect) (pick : Nat) : Ctx × List Redirect × Obs :=
+  let e := g.enter F reds pick
+  let s := runScript e.1.rq e.1.params e.1.fl.vis pick { e.1.s with reds := e.2 } e.1.todo
+  Flight.retire F { e.1 with s := s, todo := [] } s.reds pick
+
+/-- router.go `defaultRequestHandler` for one well-formed request on pooled context `c0`:
+    AcquireCtx (Reset) … handler chain … deferred ReleaseCtx (release, Redirect back to its pool). -/
+def serveOn (F : RFacts) (c0 : Ctx) (reds : List Redirect) (rq : Req) (pick : Nat) : Ctx × List Redirect × Obs :=
+  (Flight.acquire F c0 rq).complete F reds pick
+
+/-- app.go `serverErrorHandler` for a request fasthttp rejected (malformed header, garbage request
+    line, truncated request): `AcquireCtx` (Reset on whatever was parsed), the application's error
+    handler, deferred `ReleaseCtx`. The context goes through the pools like any other. -/
+def serveBad (F : RFacts) (c0 : Ctx) (reds : List Redirect) (rq : Req) (pick : Nat) : Ctx × List Redirect :=
+  let r := Flight.retire F { Flight.acquire F c0 rq with out := .notFound, entered := true } reds pick
+  (r.1, r.2.1)
+
+/-- one request against the world. A malformed request is answered by fasthttp + `serverErrorHandler`
+    (its response is not part of the modelled observation: the probe is always well-formed). -/
 def step (F : RFacts) (w : World) (rq : Req) (pk : Pick) : World × Option Obs :=
-  if rq.bad ≠ 0 then (w, none)
+  if rq.bad ≠ 0 then
+    let (c0, rest) := takeAt w.ctxs pk.ctx Ctx.fresh
+    let (c, reds) := serveBad F c0 w.reds rq pk.red
+    ({ ctxs := c :: rest, reds := reds }, none)
   else
     let (c0, rest) := takeAt w.ctxs pk.ctx Ctx.fresh
     let (c, reds, o) := serveOn F c0 w.reds rq pk.red
